@@ -23,7 +23,7 @@ VERIF = os.path.dirname(os.path.dirname(os.path.abspath(__file__)))
 PLAIN_PY = '/venv/bin/python' if os.path.exists('/venv/bin/python') else sys.executable
 
 TIERS = {
-    'quick': dict(conc_cap=64, deadline_s=240, chunk_paths=120, chunk_s=8, wit_per_task=6, max_decisions=4000, solver_timeout_ms=20000),
+    'quick': dict(conc_cap=64, deadline_s=600, chunk_paths=120, chunk_s=8, wit_per_task=6, max_decisions=4000, solver_timeout_ms=20000),
     'thorough': dict(conc_cap=512, deadline_s=2400, chunk_paths=400, chunk_s=30, wit_per_task=10, max_decisions=20000, solver_timeout_ms=60000, fresh_rlimit=150000000, cross_every=97),
 }
 
